@@ -30,6 +30,10 @@ def configs(tier, seed):
             if tier == "quick" and s["entries"] == 2 and (wi + wr + sum(s["lens"]) + seed) % 2:
                 continue
             out.append(dict(s, ob="foreign", w_index=wi, w_rowid=wr))
+    # foreign files whose row ids total more than the row-id word can count (the offsets must not be
+    # accumulated in the row-id word): 1-byte words, 200 + 100 row ids
+    out.append(dict(ob="foreign", entries=2, arity=1, lens=[200, 100], w_index=1, w_rowid=1, concrete_rows=True))
+    out.append(dict(ob="foreign", entries=3, arity=1, lens=[100, 100, 100], w_index=2, w_rowid=1, concrete_rows=True))
     for ne in (1, 2, 3):
         out.append(dict(ob="size", entries=ne))
     return out
